@@ -5,12 +5,15 @@ package wgen
 
 import (
 	"fmt"
+
 	"os"
 	"os/exec"
 	"path/filepath"
+	"verif/internal/ev"
 )
 
-const Repo = "/repo"
+// Repo is the wuffs tree under check (/repo unless $VERIF_REPO is set).
+var Repo = ev.Repo()
 
 func run(dir string, env []string, name string, args ...string) error {
 	cmd := exec.Command(name, args...)
